@@ -87,32 +87,36 @@ def snapshot(det):
             except ValueError:
                 # an unset optional property — or one set to 0.0, which some getters report as "not specified":
                 # the stored value decides
-                v = getattr(obj, "_" + name, None)
+                v = obj.to_dict().get(name)
             out["props"][f"{part}.{name}"] = canon(v)
+    from probes import charge_frame, container, held_array
+
     c = out["containers"]
-    ph = det._photon
-    if ph is None or ph._array is None:
+    ph = container(det, "photon")
+    held = None if ph is None else held_array(ph)
+    if held is None:
         c["photon"] = None
-    elif isinstance(ph._array, np.ndarray):
+    elif isinstance(held, np.ndarray):
         c["photon"] = {"array_2d": canon(ph.array)}
     else:
         cube = canon(ph.array_3d)
         # 6b compares dtype, shape, values and coordinates; the DataArray's name and free-form attributes are not data
         c["photon"] = {"array_3d": {k: v for k, v in cube.items() if k not in ("name", "attrs")}}
     for name in ("pixel", "signal", "image", "phase"):
-        if not hasattr(det, "_" + name):
+        if not hasattr(type(det), name):
             continue
-        cont = getattr(det, "_" + name)
-        c[name] = None if (cont is None or cont._array is None) else canon(np.asarray(cont.array))
-    ch = det._charge
-    if ch is None or (ch.frame.empty and not np.any(ch.array)):
+        cont = container(det, name)
+        held = None if cont is None else held_array(cont)
+        c[name] = None if held is None else canon(np.asarray(held))
+    ch = container(det, "charge")
+    if ch is None or (charge_frame(ch).empty and not np.any(ch.array)):
         c["charge"] = None  # the state of a charge container nothing was added to
     else:
         c["charge"] = {"array": canon(np.asarray(ch.array)), "frame": canon(ch.frame)}
-    sc = det._scene
+    sc = container(det, "scene")
     tree = None if sc is None else canon(sc.data)
     c["scene"] = None if (tree is None or all(not v.get("data_vars") for v in tree.values())) else tree
-    dt = det._data
+    dt = container(det, "data")
     tree = None if dt is None else canon(dt)
     c["data"] = None if (tree is None or tree_is_blank(tree)) else tree
     return out
@@ -125,7 +129,10 @@ def tree_is_blank(tree):
 
 
 def data_tree_canon(det):
-    tree = canon(det._data) if det._data is not None else None
+    from probes import container
+
+    dt = container(det, "data")
+    tree = canon(dt) if dt is not None else None
     return None if (tree is None or tree_is_blank(tree)) else tree
 
 
@@ -351,11 +358,13 @@ def file_arrays(fdet):
     import numpy as np
 
     out = {}
+    from probes import container, held_array
+
     for k in ("photon", "pixel", "signal", "image", "phase"):
-        if k == "phase" and not hasattr(fdet, "_phase"):
+        if k == "phase" and not hasattr(type(fdet), "phase"):
             continue
-        cont = getattr(fdet, "_" + k, None)
-        arr = None if cont is None else cont._array
+        cont = container(fdet, k)
+        arr = None if cont is None else held_array(cont)
         out[k] = None if arr is None else np.array(arr, copy=True)
     ch = np.array(fdet.charge.array, copy=True)
     out["charge"] = ch if np.any(ch) else None
